@@ -254,12 +254,14 @@ func (eng *Engine) solve(o *Obligation, timeoutMs int, all bool) {
 		}
 		return
 	}
-	if !o.ExpectSat && !all {
-		// stage A: drop quantified assumptions unrelated to the goal (sound: fewer hypotheses)
-		fileA := full
+	fileA := full
+	if !o.ExpectSat {
 		if ft, dropped := smtTextFiltered(o); dropped {
 			fileA = write(ft, ".a")
 		}
+	}
+	if !o.ExpectSat && !all {
+		// stage A: drop quantified assumptions unrelated to the goal (sound: fewer hypotheses)
 		// A1: one fast solver alone; A2: the other two
 		first, rest := solvers[:1], solvers[1:]
 		if strings.Contains(o.Goal.S, "(exists ") {
@@ -274,11 +276,11 @@ func (eng *Engine) solve(o *Obligation, timeoutMs int, all bool) {
 				}
 			}
 		}
-		if st, sv, ms := race(fileA, first, 1500, "unsat", "/a"); st == "unsat" {
+		if st, sv, ms := race(fileA, first, 2500, "unsat", "/a"); st == "unsat" {
 			o.Status, o.Solver, o.TimeMs = st, sv, ms
 			return
 		}
-		if st, sv, ms := race(fileA, rest, 3000, "unsat", "/a"); st == "unsat" {
+		if st, sv, ms := race(fileA, rest, 5000, "unsat", "/a"); st == "unsat" {
 			o.Status, o.Solver, o.TimeMs = st, sv, ms
 			return
 		}
@@ -298,8 +300,7 @@ func (eng *Engine) solve(o *Obligation, timeoutMs int, all bool) {
 		// that do not mention anything the goal mentions (fewer hypotheses, so
 		// `unsat` there is conclusive). The solvers' quantifier instantiation is
 		// sensitive to the order of assertions, which varies from run to run.
-		if ft, dropped := smtTextFiltered(o); dropped {
-			fileA := write(ft, ".a")
+		if fileA != full {
 			if st, sv, ms := race(fileA, solvers, timeoutMs/2, "unsat", "/a"); st == "unsat" {
 				o.Status, o.Solver, o.TimeMs = st, sv, ms
 				return
@@ -314,6 +315,14 @@ func (eng *Engine) solve(o *Obligation, timeoutMs int, all bool) {
 		// busy. (A genuinely failing obligation costs this extra time once.)
 		for k := range o.Answers {
 			delete(o.Answers, k)
+		}
+		// (the reduced script first: some obligations are only ever proved
+		// from it, the solvers answering `unknown` on the whole script at once)
+		if fileA != full {
+			if st, sv, ms := race(fileA, solvers, 3*timeoutMs, "unsat", "/retry-a"); st == "unsat" {
+				o.Status, o.Solver, o.TimeMs = st, sv, ms
+				return
+			}
 		}
 		if st, sv, ms := race(full, solvers, 3*timeoutMs, "", "/retry"); st != "" {
 			o.Status, o.Solver, o.TimeMs = st, sv, ms
@@ -333,6 +342,13 @@ func (eng *Engine) solve(o *Obligation, timeoutMs int, all bool) {
 			waitForQuiet(45 * time.Second)
 			for k := range o.Answers {
 				delete(o.Answers, k)
+			}
+			if fileA != full {
+				if st, sv, ms := race(fileA, solvers, 6*timeoutMs, "unsat", "/quiet-a"); st == "unsat" {
+					o.Status, o.Solver, o.TimeMs = st, sv, ms
+					eng.quietMu.Unlock()
+					return
+				}
 			}
 			if st, sv, ms := race(full, solvers, 6*timeoutMs, "", "/quiet"); st != "" {
 				o.Status, o.Solver, o.TimeMs = st, sv, ms
